@@ -105,6 +105,7 @@ type fx struct {
 	curCallee   *ssa.CallCommon
 	keepAllRegs []region
 	keepAllInit  bool
+	pendingGhostMods map[string]bool // ghost memories the callee being applied may change
 	boundNames   []string // quantifier variables whose body is being evaluated
 	heapAllocs   []heapAlloc
 	keepAllLocal []*Expr // keepsall expressions over locals, evaluated per call
